@@ -42,6 +42,12 @@ pub struct Sc {
     /// every fill level of it from zero on, whatever this worker ran before
     #[serde(default)]
     pub fresh_thread: bool,
+    /// 0: every call is made by the thread that runs the scenario.  Otherwise a second
+    /// caller thread exists for this run and library call number i (compilations
+    /// included) is made by it when bit i mod 63 is set: objects are created on one
+    /// thread and used on the other
+    #[serde(default)]
+    pub migrate: u64,
 }
 
 #[derive(Clone, Debug, Serialize, Deserialize)]
@@ -56,9 +62,21 @@ pub struct TwinPattern {
 
 pub struct C06;
 
-thread_local! {
-    /// the second live pattern of the run being executed on this thread (harness state, set and cleared by execute)
-    static TWIN: std::cell::RefCell<Option<Pattern>> = const { std::cell::RefCell::new(None) };
+/// What a merge step needs besides the pattern under test: the other live pattern
+/// and the plan saying which caller thread makes which library call.
+struct Env<'a> {
+    twin: Option<&'a Pattern>,
+    helper: &'a Option<Helper>,
+    mask: u64,
+    calls: std::cell::Cell<u64>,
+}
+
+impl Env<'_> {
+    fn next(&self) -> u64 {
+        let n = self.calls.get();
+        self.calls.set(n + 1);
+        n
+    }
 }
 
 const BASES: [&str; 12] = ["foo", "bar", "foo-bar", "fo", "baz", "f", "fox-bar", "fxo", "ber", "ab", "ad", "bar-bar"];
@@ -573,15 +591,16 @@ fn merge_step(
     ctx: &mut Ctx,
     what: &str,
     deferred: &mut Option<Violation>,
+    env: &Env,
 ) -> Result<Option<String>, Violation> {
     // the other live pattern is asked first (its answers are judged by the same model)
-    let twin_verdict: Option<Violation> = TWIN.with(|t| {
-        if let Some(tp) = t.borrow().as_ref() {
+    let twin_verdict: Option<Violation> = (|| {
+        if let Some(tp) = env.twin {
             // (also about the candidates with the case of their first letter flipped: a
             // second pattern that differs from the first only in case has names of its own)
             let (fa, fb) = (flip_first_letter(a), flip_first_letter(b));
             for n in [a, b, fa.as_str(), fb.as_str()] {
-                let m = tp.matches(n);
+                let m = on_thread!(env.helper, env.mask, env.next(), tp.matches(n));
                 if let Some(want) = model_matches(tp.pattern(), n) {
                     if m != want {
                         return Some(Violation::new(
@@ -600,7 +619,7 @@ fn merge_step(
             }
         }
         None
-    });
+    })();
     if let Some(v) = twin_verdict {
         return Err(v);
     }
@@ -610,9 +629,9 @@ fn merge_step(
     } else {
         0
     };
-    let r = metered!(ctx, a.len() + b.len() + 64 + 2 * weight, pat.best_match(a, b));
-    let ma = pat.matches(a);
-    let mb = pat.matches(b);
+    let r = on_thread!(env.helper, env.mask, env.next(), metered!(ctx, a.len() + b.len() + 64 + 2 * weight, pat.best_match(a, b)));
+    let ma = on_thread!(env.helper, env.mask, env.next(), pat.matches(a));
+    let mb = on_thread!(env.helper, env.mask, env.next(), pat.matches(b));
     for (n, m) in [(a, ma), (b, mb)] {
         if let Some(want) = model_matches(pat.pattern(), n) {
             ctx.probe(if want { "match-model-agrees-match" } else { "match-model-agrees-no-match" });
@@ -659,7 +678,7 @@ fn merge_step(
                 x
             );
             ensure!(
-                pat.matches(x),
+                on_thread!(env.helper, env.mask, env.next(), pat.matches(x)),
                 "result-does-not-match",
                 "{}: best_match({:?}, {:?}) = {:?} which does not match the pattern",
                 what,
@@ -669,7 +688,7 @@ fn merge_step(
             );
         }
     }
-    let r2 = pat.best_match(b, a);
+    let r2 = on_thread!(env.helper, env.mask, env.next(), pat.best_match(b, a));
     ensure!(
         r == r2,
         "argument-order-dependent",
@@ -858,7 +877,9 @@ impl Property for C06 {
             });
         }
         let twin = if rng.chance(1, 3) {
-            let tp = match rng.below(4) {
+            // (a scale run gets a cheap neighbour: thousands of merge steps times a
+            // neighbour group of hundreds of alternatives is minutes of honest work)
+            let tp = match if ncand >= 257 { 1 } else { rng.below(4) } {
                 // a pattern that is rejected (an opening brace never closed, a surplus closing
                 // one, a bad bound): a failed compilation is a neighbour call like any other
                 3 => rng.pick_str(&REJECTED).to_string(),
@@ -888,12 +909,15 @@ impl Property for C06 {
         if twin.as_ref().map_or(false, |t| REJECTED.contains(&t.pattern.as_str())) && rng.chance(3, 4) {
             fresh_thread = true;
         }
+        // (not in scale runs: a rendezvous per call would dominate them)
+        let migrate = if rng.chance(1, 8) && ncand < 257 { rng.next_u64() | (1 << 63) } else { 0 };
         Sc {
             pattern,
             replicas,
             merges,
             twin,
             fresh_thread,
+            migrate,
         }
     }
 
@@ -936,6 +960,7 @@ impl Property for C06 {
                 merges: vec![],
                 twin: sc.twin.clone(),
                 fresh_thread: sc.fresh_thread,
+                migrate: sc.migrate,
             });
         }
         for (ri, r) in sc.replicas.iter().enumerate() {
@@ -1002,28 +1027,42 @@ impl Property for C06 {
 
 /// One run (on the worker's thread or on a thread of its own, see `Sc::fresh_thread`).
 fn execute_run(sc: &Sc, ctx: &mut Ctx) -> Outcome {
+    // a second caller thread, when the scenario asks for one and a user could move a
+    // Pattern between threads too
+    let helper: Option<Helper> = if sc.migrate != 0 && is_send_sync!(Pattern) {
+        ctx.fault("caller_thread_switch");
+        Some(Helper::new())
+    } else {
+        None
+    };
+    let mask = sc.migrate;
+    let mut ncall = 0u64;
+    let mut compile = |p: &str| -> Option<Pattern> {
+        ncall += 1;
+        on_thread!(helper, mask, ncall - 1, Pattern::new(p).ok())
+    };
     let early_twin: Option<Pattern> = match &sc.twin {
-        Some(t) if t.first => Pattern::new(&t.pattern).ok(),
+        Some(t) if t.first => compile(&t.pattern),
         _ => None,
     };
-    let pat = match Pattern::new(&sc.pattern) {
-        Ok(p) => p,
-        Err(_) => return Ok(()), // not a valid pattern: nothing to reduce
+    let pat = match compile(&sc.pattern) {
+        Some(p) => p,
+        None => return Ok(()), // not a valid pattern: nothing to reduce
     };
     let mut kept: Vec<Pattern> = Vec::new();
     let pat = match sc.twin.as_ref().map(|t| t.clone_mode) {
         Some(1) => {
-            let c = pat.clone();
+            let c = on_thread!(helper, mask, 5u64, pat.clone());
             drop(pat);
             c
         }
         Some(2) => {
             let c = pat.clone();
-            drop(c);
+            on_thread!(helper, mask, 6u64, drop(c));
             pat
         }
         Some(3) => {
-            kept.push(pat.clone());
+            kept.push(on_thread!(helper, mask, 7u64, pat.clone()));
             pat
         }
         _ => pat,
@@ -1031,13 +1070,18 @@ fn execute_run(sc: &Sc, ctx: &mut Ctx) -> Outcome {
     // compiled after the clone / drop above, alive until the end of the run
     let twin_pat: Option<Pattern> = match &sc.twin {
         Some(t) if t.first => early_twin,
-        Some(t) => Pattern::new(&t.pattern).ok(),
+        Some(t) => compile(&t.pattern),
         None => None,
     };
     if twin_pat.is_some() {
         ctx.fault("interleaved_objects");
     }
-    TWIN.with(|t| *t.borrow_mut() = twin_pat);
+    let env = Env {
+        twin: twin_pat.as_ref(),
+        helper: &helper,
+        mask,
+        calls: std::cell::Cell::new(8),
+    };
     let mut state: Vec<Option<String>> = vec![None; sc.replicas.len()];
     let mut seen_all: Vec<&str> = Vec::new();
     let mut deferred: Option<Violation> = None;
@@ -1057,14 +1101,14 @@ fn execute_run(sc: &Sc, ctx: &mut Ctx) -> Outcome {
             seen.push(&d.name);
             let what = format!("replica {} delivery {}", ri, di);
             state[ri] = match &state[ri] {
-                None => merge_step(&pat, &d.name, &d.name, ctx, &what, &mut deferred)?,
+                None => merge_step(&pat, &d.name, &d.name, ctx, &what, &mut deferred, &env)?,
                 Some(cur) => {
                     let cur = cur.clone();
                     if d.new_first {
                         ctx.fault("reorder");
-                        merge_step(&pat, &d.name, &cur, ctx, &what, &mut deferred)?
+                        merge_step(&pat, &d.name, &cur, ctx, &what, &mut deferred, &env)?
                     } else {
-                        merge_step(&pat, &cur, &d.name, ctx, &what, &mut deferred)?
+                        merge_step(&pat, &cur, &d.name, ctx, &what, &mut deferred, &env)?
                     }
                 }
             };
@@ -1104,9 +1148,9 @@ fn execute_run(sc: &Sc, ctx: &mut Ctx) -> Outcome {
             (None, x) | (x, None) => x,
             (Some(p), Some(q)) => {
                 if m.from_first {
-                    merge_step(&pat, &p, &q, ctx, &what, &mut deferred)?
+                    merge_step(&pat, &p, &q, ctx, &what, &mut deferred, &env)?
                 } else {
-                    merge_step(&pat, &q, &p, ctx, &what, &mut deferred)?
+                    merge_step(&pat, &q, &p, ctx, &what, &mut deferred, &env)?
                 }
             }
         };
@@ -1140,7 +1184,6 @@ fn execute_run(sc: &Sc, ctx: &mut Ctx) -> Outcome {
             }
         }
     }
-    TWIN.with(|t| *t.borrow_mut() = None);
     drop(kept);
     match deferred {
         Some(v) => Err(v),
